@@ -121,8 +121,10 @@ type caseSpec struct {
 	Prefix string   `json:"prefix"`     // "", "/", "{ROOT}/" (absolute path of the root), "{PARENT}/" (absolute path of its parent)
 	Rel    string   `json:"rel"`        // the segments joined by "/"
 	Cwd    string   `json:"cwd,omitempty"`
-	State  string   `json:"root_state,omitempty"`    // state of the root when the call is made: "" = populated directory, see rootStates
-	Spell  string   `json:"root_spelling,omitempty"` // how the root path is written when it is handed to the component, see spellings
+	State  string   `json:"root_state,omitempty"`      // state of the root when the call is made: "" = populated directory, see rootStates
+	Spell  string   `json:"root_spelling,omitempty"`   // how the root path is written when it is handed to the component, see spellings
+	Case   string   `json:"name_case,omitempty"`       // every <rootname> in the name (and in the {ROOT}/ prefix) written in another letter case, see caseVariants
+	Sep    string   `json:"entry_separator,omitempty"` // archive entries only: the separators of the name replaced by backslashes, see sepVariants
 	Name   string   `json:"name_in_this_run,omitempty"`
 	Audit  bool     `json:"audit,omitempty"` // witness of the strace read audit (oracle ii)
 }
@@ -163,14 +165,97 @@ func rels(rootName string, maxSeg int) []string {
 	return out
 }
 
-func expandName(cs caseSpec, root string) string {
+// Letter-case variants of the root's name: siblings that differ from the root
+// only by case ("rt" vs "RT", "Rt", "rT"). On a case-sensitive file system
+// they are different directories, i.e. names that go there escape the root.
+var caseVariants = []string{"upper", "title", "mixed"}
+
+func caseVariant(rn, kind string) string {
+	switch kind {
+	case "upper":
+		return strings.ToUpper(rn)
+	case "title":
+		return strings.ToUpper(rn[:1]) + rn[1:]
+	case "mixed":
+		return rn[:1] + strings.ToUpper(rn[1:2]) + rn[2:]
+	}
+	panic("unknown case variant " + kind)
+}
+
+// Separator variants for archive entry names: "archives packed on Windows".
+// On Linux a backslash is an ordinary file-name character.
+var sepVariants = []string{"backslash", "mixed-backslash-first", "mixed-slash-first"}
+
+// expandParts returns the prefix string and the segments of the case's name.
+func expandParts(cs caseSpec, root string) (string, []string) {
+	rn := filepath.Base(root)
+	segs := strings.Split(cs.Rel, "/")
+	if cs.Case != "" {
+		for i, sg := range segs {
+			if sg == rn {
+				segs[i] = caseVariant(rn, cs.Case)
+			}
+		}
+	}
 	switch cs.Prefix {
 	case prefRoot:
-		return root + "/" + cs.Rel
+		if cs.Case != "" {
+			return filepath.Dir(root) + "/" + caseVariant(rn, cs.Case) + "/", segs
+		}
+		return root + "/", segs
 	case prefParent:
-		return filepath.Dir(root) + "/" + cs.Rel
+		return filepath.Dir(root) + "/", segs
 	}
-	return cs.Prefix + cs.Rel
+	return cs.Prefix, segs
+}
+
+func expandName(cs caseSpec, root string) string {
+	pf, segs := expandParts(cs, root)
+	if cs.Sep == "" {
+		return pf + strings.Join(segs, "/")
+	}
+	// the separators written by the variant, in order of appearance (prefix "/" first)
+	n := 0
+	sep := func() string {
+		n++
+		switch cs.Sep {
+		case "backslash":
+			return `\`
+		case "mixed-backslash-first":
+			if n%2 == 1 {
+				return `\`
+			}
+			return "/"
+		case "mixed-slash-first":
+			if n%2 == 1 {
+				return "/"
+			}
+			return `\`
+		}
+		panic("unknown separator variant " + cs.Sep)
+	}
+	out := ""
+	if pf == prefSlash {
+		out = sep()
+	} else {
+		out = pf
+	}
+	for i, sg := range segs {
+		if i > 0 {
+			out += sep()
+		}
+		out += sg
+	}
+	return out
+}
+
+// changedByVariant reports whether the case/separator variant makes the name
+// different from the plain one (otherwise the case is a duplicate).
+func changedByVariant(cs caseSpec) bool {
+	plain := cs
+	plain.Case, plain.Sep = "", ""
+	root := "/p/" + cs.rootName()
+	return expandName(cs, root) != expandName(plain, root)
 }
 
 func within(p, root string) bool { return p == root || strings.HasPrefix(p, root+"/") }
@@ -223,6 +308,7 @@ type sbox struct {
 	pristine     map[string]string // full snapshot of caseDir right after building
 	outsideDirty bool              // the last case changed something outside the root: rebuild everything
 	insideDirty  bool              // the last case changed something inside the root only: rebuild the root
+	caseSiblings bool              // the levels above the root also hold siblings named like the root in another letter case
 }
 
 // worker owns a directory and the sandboxes in it. Building a sandbox is the
@@ -242,6 +328,9 @@ func (w *worker) sandbox(cs caseSpec) *sbox {
 	if cs.State != "" {
 		key += "-" + cs.State
 	}
+	if cs.Case != "" {
+		key += "-case"
+	}
 	sb := w.boxes[key]
 	if sb != nil && !sb.outsideDirty {
 		if sb.insideDirty {
@@ -258,6 +347,7 @@ func (w *worker) sandbox(cs caseSpec) *sbox {
 	} else {
 		sb.excl = []string{sb.root}
 	}
+	sb.caseSiblings = cs.Case != ""
 	sb.populate(cs.Chain, cs.Comp == "scan")
 	sb.buildInside(cs)
 	sb.pristine = snapshot(sb.caseDir)
@@ -364,6 +454,16 @@ func (sb *sbox) populateLevel(cur, next, rn string, versioned bool) {
 	}
 	if versioned {
 		sb.file(filepath.Join(cur, "out_v1-0-0.bin"), markOutside)
+	}
+	if sb.caseSiblings {
+		for _, kind := range caseVariants {
+			p := filepath.Join(cur, caseVariant(rn, kind))
+			must(os.MkdirAll(filepath.Join(p, "a"), 0o755))
+			sb.file(filepath.Join(p, "a", "a"), markOutside)
+			if versioned {
+				sb.file(filepath.Join(p, "out_v1-0-0.bin"), markOutside)
+			}
+		}
 	}
 }
 
@@ -588,14 +688,15 @@ func runCase(cs caseSpec, w *worker) (res caseResult) {
 		case "EnsureRelDir":
 			res.target = filepath.Join(sb.root, name)
 			var parts []string
-			switch cs.Prefix {
+			pf, segs := expandParts(cs, sb.root)
+			switch pf {
 			case prefNone:
 			case prefSlash:
 				parts = append(parts, "/")
 			default:
-				parts = append(parts, strings.TrimSuffix(expandName(caseSpec{Prefix: cs.Prefix}, sb.root), "/"))
+				parts = append(parts, strings.TrimSuffix(pf, "/"))
 			}
-			parts = append(parts, strings.Split(cs.Rel, "/")...)
+			parts = append(parts, segs...)
 			op = func() error { return ds.EnsureRelDir(parts...) }
 		}
 	case "unpack":
@@ -762,6 +863,12 @@ func evaluate(c *vlib.Ctx, cs caseSpec, res caseResult, verbose bool) {
 	if cs.State != "" {
 		desc += " root-state=" + cs.State
 	}
+	if cs.Case != "" {
+		desc += " name-case=" + cs.Case
+	}
+	if cs.Sep != "" {
+		desc += " entry-separator=" + cs.Sep
+	}
 	if cs.Spell != "" {
 		desc += " root-spelling=" + cs.Spell + " (" + spell("{SANDBOX}/"+strings.Join(cs.Chain, "/"), cs.Spell) + ")"
 	}
@@ -801,9 +908,15 @@ func evaluate(c *vlib.Ctx, cs caseSpec, res caseResult, verbose bool) {
 	if cs.Spell != "" {
 		out += "[root spelled " + cs.Spell + "]"
 	}
+	if cs.Case != "" {
+		out += "[name case " + cs.Case + "]"
+	}
+	if cs.Sep != "" {
+		out += "[separator " + cs.Sep + "]"
+	}
 	if res.escaping {
 		out += "/escaping"
-		c.Nontrivial(fmt.Sprintf("%s|%s|%v|%s|%s|%s|%s%s", cs.Comp, cs.Op, cs.Chain, cs.Cwd, cs.State, cs.Spell, cs.Prefix, cs.Rel))
+		c.Nontrivial(fmt.Sprintf("%s|%s|%v|%s|%s|%s|%s|%s|%s%s", cs.Comp, cs.Op, cs.Chain, cs.Cwd, cs.State, cs.Spell, cs.Case, cs.Sep, cs.Prefix, cs.Rel))
 	} else {
 		out += "/inside"
 	}
@@ -891,6 +1004,8 @@ func main() {
 			[][]string{{"st", "tmp", unpackRoot}, {unpackRoot + "-other", "st", "tmp", unpackRoot}, {"a", unpackRoot, "st", "tmp", unpackRoot}})
 		stateSeg := map[string]int{"fstree": vlib.Pick(c, 3, 4), "dirstruct": vlib.Pick(c, 2, 3), "scan": vlib.Pick(c, 2, 3), "unpack": vlib.Pick(c, 2, 3)}
 		childSeg := maxSeg - 1
+		caseSeg := map[string]int{"fstree": vlib.Pick(c, 2, 3), "dirstruct": vlib.Pick(c, 3, 4), "scan": vlib.Pick(c, 2, 3), "unpack": vlib.Pick(c, 2, 3)}
+		sepSeg := vlib.Pick(c, 3, 4)
 		spellSeg := map[string]int{"fstree": vlib.Pick(c, 2, 3), "dirstruct": vlib.Pick(c, 3, 4), "scan": vlib.Pick(c, 2, 3), "unpack": vlib.Pick(c, 2, 3)}
 		sets := []rootSet{
 			{"fstree", []string{"Put", "Get", "Delete", "Query"}, plain, []string{""}},
@@ -901,7 +1016,7 @@ func main() {
 		}
 		c.Rule(fmt.Sprintf("every name = prefix + s1/.../sk, 1<=k<=%d, si in {a, .., ., \"\", <rootname>-other, <rootname>}, prefix in {\"\", \"/\", <abs root>/, <abs parent of root>/}; "+
 			"for every component operation and every root chain; each case on a fresh sandbox tree with sentinel files/dirs named a, <rootname>, <rootname>-other at every level above the root. "+
-			"additionally (shorter names) with the root path spelled <root>/, <root>//, <parent>/./<root>, <parent>//<root> when handed to the component, and with the root removed / replaced by a regular file after the backend was opened / an empty directory. "+
+			"additionally (shorter names) with <rootname> written in another letter case (siblings RT, Rt, rT), archive entry names with backslashes instead of slashes, with the root path spelled <root>/, <root>//, <parent>/./<root>, <parent>//<root> when handed to the component, and with the root removed / replaced by a regular file after the backend was opened / an empty directory. "+
 			"distinct_nontrivial = cases whose name lexically resolves outside the root", maxSeg))
 		c.Assume("no symbolic links inside the sandbox: containment is decided lexically (Join/Clean), as the property's quantifier is over name strings")
 		c.Assume("reads outside the root are observed only through what the operation hands back (record content, query results, scanned resources) unless the optional strace audit ran; a read whose result is discarded is not seen by the engine-Q part")
@@ -949,6 +1064,41 @@ func main() {
 							for _, pf := range prefixes {
 								for _, op := range rs.ops {
 									specs = append(specs, caseSpec{Comp: rs.comp, Op: op, Chain: chain, Prefix: pf, Rel: r, Cwd: rs.cwds[0], Spell: sp})
+								}
+							}
+						}
+					}
+				}
+			}
+			// letter-case siblings: every name that mentions the root's name (or carries the
+			// absolute root prefix), with that name written in another case
+			if rs.comp != "bridge" {
+				for _, kind := range caseVariants {
+					for _, chain := range rs.chains {
+						c.Scenario(fmt.Sprintf("%s root={SANDBOX}/%s name-case=%s", rs.comp, strings.Join(chain, "/"), kind))
+						for _, r := range rels(chain[len(chain)-1], caseSeg[rs.comp]) {
+							for _, pf := range prefixes {
+								for _, op := range rs.ops {
+									cs := caseSpec{Comp: rs.comp, Op: op, Chain: chain, Prefix: pf, Rel: r, Cwd: rs.cwds[0], Case: kind}
+									if changedByVariant(cs) {
+										specs = append(specs, cs)
+									}
+								}
+							}
+						}
+					}
+				}
+			}
+			// archive entries whose separators are backslashes (all, or alternating with slashes)
+			if rs.comp == "unpack" {
+				for _, sv := range sepVariants {
+					for _, chain := range rs.chains {
+						c.Scenario(fmt.Sprintf("%s root={SANDBOX}/%s entry-separator=%s", rs.comp, strings.Join(chain, "/"), sv))
+						for _, r := range rels(chain[len(chain)-1], sepSeg) {
+							for _, pf := range []string{prefNone, prefSlash} {
+								cs := caseSpec{Comp: rs.comp, Op: rs.ops[0], Chain: chain, Prefix: pf, Rel: r, Sep: sv}
+								if changedByVariant(cs) {
+									specs = append(specs, cs)
 								}
 							}
 						}
@@ -1036,7 +1186,7 @@ func main() {
 			if !r.done {
 				continue
 			}
-			k := fmt.Sprintf("%s|%v|%s|%s|%s|%s|%s", s.Comp, s.Chain, s.Cwd, s.State, s.Spell, s.Prefix, s.Rel)
+			k := fmt.Sprintf("%s|%v|%s|%s|%s|%s|%s|%s|%s", s.Comp, s.Chain, s.Cwd, s.State, s.Spell, s.Case, s.Sep, s.Prefix, s.Rel)
 			st := int64(0)
 			if _, ok := seenInput[k]; !ok {
 				seenInput[k] = struct{}{}
